@@ -238,6 +238,7 @@ def job(a):
         good = [b"A", b"\xc3\xa9", b"z", b"\xe2\x82\xac", b"0", b"\xf0\x9f\x98\x80", b"~"]
         badp = [b"\xc0\x80", b"\xed\xa0\x80", b"\xf4\x90\x80\x80", b"\xf5", b"\x80", b"\xff",
                 b"\xe0\x9f\xbf", b"\xc2", b"\xe1\x80", b"\xf1\x80\x80"]
+        fillers = []
         for total in a["totals"]:
             filler = b""
             i = 0
@@ -247,6 +248,10 @@ def job(a):
             filler = filler[:total]
             while filler and (filler[-1] & 0xC0) == 0x80 or filler[-1:] and filler[-1] >= 0xC0:
                 filler = filler[:-1] + b"A" if False else filler[:-1]
+            fillers.append(filler)
+            # runs of plain ASCII (word-at-a-time fast paths): 7-bit text of the same length
+            fillers.append(bytes(0x20 + (j % 90) for j in range(total)))
+        for filler in fillers:
             run([filler], "long-valid")
             for pos in range(0, len(filler) + 1):
                 if pos < len(filler) and (filler[pos] & 0xC0) == 0x80:
